@@ -201,14 +201,20 @@ class Ref:
         self.faults = faults or {}
         self.log = []
         self.reads = set()
+        self.read_log = []  # ordered (key, present)
+        self.abandoned_reads = set()  # reads made inside coalesce members / dispatches that then failed
         self._trial = 0
+        self._trial_marks = []
         self._defs = {}
 
     # -- public ----------------------------------------------------------
     def run(self, term, o):
         self.log = []
         self.reads = set()
+        self.read_log = []
+        self.abandoned_reads = set()
         self._trial = 0
+        self._trial_marks = []
         try:
             v = self.ev(term, copy.deepcopy(o))
             # lazy iterables (Iter, Map) are materialised here, exactly like the
@@ -238,9 +244,11 @@ class Ref:
         try:
             v = lookup(o, key)
             self.reads.add((key, True))
+            self.read_log.append((key, True))
             return v
         except Absent:
             self.reads.add((key, False))
+            self.read_log.append((key, False))
             raise
 
     def resolve(self, v, o):
@@ -278,9 +286,13 @@ class Ref:
 
     def _trial_enter(self):
         self._trial += 1
+        self._trial_marks.append(len(self.read_log))
 
     def _trial_exit(self, start, success):
         self._trial -= 1
+        mark = self._trial_marks.pop()
+        if not success:
+            self.abandoned_reads.update(self.read_log[mark:])
         if success and self._trial == 0:
             # events of a successful member are on the selected path
             for i in range(start, len(self.log)):
